@@ -25,6 +25,7 @@ using namespace mustache;
 
 namespace mustache { namespace verif { extern uint32_t storage_chunk_capacity; } }
 
+#ifndef VERIF_NO_INTERNALS
 namespace mustache { namespace verif {
 struct Access {
     static const auto& entities(const EntityManager& m) { return m.entities_; }
@@ -42,6 +43,7 @@ struct Access {
 };
 }}
 using mustache::verif::Access;
+#endif  // VERIF_NO_INTERNALS: a renamed private member must not raise an alarm: the internal observations are dropped
 
 // ------------------------------------------------------------------------------------------------
 // lifecycle instrumentation (C03): per (type, address) live/dead state machine
@@ -320,6 +322,7 @@ struct Driver {
     uint32_t threads = 2;
     uint32_t world_id = 0;
     bool use_default_ctx = false;
+    uint32_t lock_depth = 0;                    // mirrors lock()/unlock() calls made through this driver
     std::ostringstream out;
 
     EntityManager& em() { ensureWorld(); return world->entities(); }
@@ -480,9 +483,10 @@ struct Driver {
             }
             if (op == "update") { m.update(); return "ok"; }
             if (op == "wupdate") { world->update(); return "ok"; }
-            if (op == "lock") { m.lock(); return "ok"; }
+            if (op == "lock") { m.lock(); ++lock_depth; return "ok"; }
             if (op == "unlock") {
-                if (agents.running && Access::lockCounter(m) == 1) agents.stop(*dispatcher);
+                if (agents.running && lock_depth == 1) agents.stop(*dispatcher);
+                if (lock_depth > 0) --lock_depth;
                 bool r = m.unlock();
                 return r ? "ret=1" : "ret=0";
             }
@@ -589,8 +593,12 @@ struct Driver {
             out << " valid=1";
             Archetype* a = m.getArchetypeOf(e);
             if (!a) { out << " arch=- pos=- comps=- shared=-\n"; continue; }
+#ifndef VERIF_NO_INTERNALS
             uint32_t pos = Access::locIndex(m, e);
             out << " arch=" << a->id().toInt() << " pos=" << pos << " comps=";
+#else
+            out << " arch=" << a->id().toInt() << " pos=? comps=";
+#endif
             bool first = true;
             for (const char* c = kLetters; *c; ++c) {
                 withComp(*c, [&](auto t) {
@@ -649,6 +657,7 @@ struct Driver {
             if (first) out << "-";
             out << "\n";
         }
+#ifndef VERIF_NO_INTERNALS
         // id table
         out << "T slots=";
         const auto& ents = Access::entities(m);
@@ -664,6 +673,7 @@ struct Driver {
         for (auto e : Access::marked(m)) { if (!first) out << ","; first = false; out << hname(e); }
         if (first) out << "-";
         out << "\n";
+#endif
         // live instrumented instances
         {
             std::lock_guard<std::mutex> l{g_life_mutex};
